@@ -96,7 +96,8 @@ class NamesVisitor(ast.NodeVisitor):
 
 
 class TypeCheckingVisitor(ast.NodeVisitor):
-    type_checking_names: List[str] = []
+    def __init__(self) -> None:
+        self.type_checking_names: List[str] = []
 
     def visit_Import(self, node: ast.Import) -> None:
         for alias in node.names:
